@@ -356,6 +356,7 @@ type Queries struct {
 	CPQ   []*s2.ContainsPointQuery
 	CPObj []int
 	CPMod []s2.VertexModel
+	Reg   []*s2.ShapeIndexRegion
 }
 
 func shapeIDs(ix *s2.ShapeIndex, shapes []s2.Shape) []uint64 {
@@ -475,6 +476,9 @@ func execQuery(world []*Obj, op *Op, qs *Queries) Ans {
 		return Ans(cellList(o.index()))
 	case QRegionBound:
 		r := o.Index.Region()
+		if qs != nil && op.Reuse >= 0 {
+			r = qs.Reg[op.Reuse]
+		}
 		cu := r.CellUnionBound()
 		a := make(Ans, 0, len(cu)+1)
 		for _, c := range cu {
@@ -622,7 +626,25 @@ func probePoint(g *gen.G, d *ObjDesc) s2.Point {
 		}
 		return g.Point()
 	case 4:
-		return s2.Point{Vector: d.Center.Vector.Mul(-1)}
+		if t.Chance(300) {
+			return s2.Point{Vector: d.Center.Vector.Mul(-1)}
+		}
+		// a point (numerically) on an edge of the object: the orientation predicates then cannot
+		// decide in floating point and fall back to their exact-arithmetic path
+		for _, sh := range d.Shapes {
+			for _, l := range sh.Loops {
+				if len(l) >= 2 {
+					i := int(t.Uint(uint32(len(l))))
+					a, b := l[i], l[(i+1)%len(l)]
+					f := t.Float()
+					v := a.Vector.Mul(1 - f).Add(b.Vector.Mul(f))
+					if v.Norm2() > 0 {
+						return s2.Point{Vector: v.Normalize()}
+					}
+				}
+			}
+		}
+		return g.Point()
 	}
 	return g.Point()
 }
